@@ -324,7 +324,7 @@ def login_secrets_case(ctx, case):
                                  else None):
                 r = servers.run_encrypted_login(
                     case.get('version', 757), bits=case.get('bits', 1024),
-                    token=bytes([i % 256, 1, 2, 3]))
+                    token=bytes([i % 256, 1, 2, 3]), observer=bool(i % 2))
         finally:
             random.setstate(state)
         if r.get('error'):
